@@ -271,7 +271,19 @@ func c02Progress(e *Env, sums map[string]core.Summary) {
 		found := false
 		core.Instrs(f, func(in ssa.Instruction) {
 			ms, ok := in.(*ssa.MakeSlice)
-			if !ok || !inLoop(in) {
+			if !ok {
+				return
+			}
+			looped := inLoop(in)
+			if !looped && in.Parent() != f {
+				// allocated by a helper that the retry loop calls
+				for _, site := range core.SitesOf(in.Parent()) {
+					if inLoop(site) {
+						looped = true
+					}
+				}
+			}
+			if !looped {
 				return
 			}
 			found = true
